@@ -24,7 +24,7 @@ ASSUMPTIONS = ["headers are signed (an unsigned header is swallowed by OR IGNORE
 TRUSTED = ["modelled not verified: SQLite/sqlx constraint handling and decoding"]
 RULE = ("quick: 200 random cases of 70-130 interleaved commands over 4-8 operations (some unsigned, empty/none/non-empty bodies), 3 topics x 3 authors x 3 logs, "
         "7 cursor names (empty string, case variants, trailing space, quotes, non-ASCII) with fresh cursor values; every write is followed by reads of "
-        "the touched key; thorough: 3000 cases up to 250 commands. non-trivial = at least five of: an ignored insert, a successful delete, a payload deletion read back, "
+        "the touched key; thorough: 2000 cases up to 200 commands. non-trivial = at least five of: an ignored insert, a successful delete, a payload deletion read back, "
         "an ignored associate, a resolve with >= 2 pairs, a cursor overwritten and read back")
 
 
@@ -120,8 +120,8 @@ def gen(tier, rng):
         for _ in range(200):
             yield _case(rng, rng.randint(4, 8), rng.randint(70, 130))
     else:
-        for _ in range(3000):
-            yield _case(rng, rng.randint(4, 14), rng.randint(30, 250))
+        for _ in range(2000):
+            yield _case(rng, rng.randint(4, 14), rng.randint(30, 200))
 
 
 def _o(v):
